@@ -46,6 +46,16 @@ def replay(tag, rec):
         cl('writer_tokens_equal_spec_numpy_arguments', realnp == toks, 'real writer on numpy arrays %r, spec %r' % (realnp, toks))
     except Exception as e:  # noqa
         cl('writer_tokens_equal_spec_numpy_arguments', False, 'numpy arguments: exception %s: %s' % (type(e).__name__, e))
+    # the decisions as BOOLEANS (the writer's docstring: "ties_indicators: Whether elements of this preference list are tied";
+    # a 'tied with the next entry' decision is a truth value): list of bool and numpy bool array
+    try:
+        import numpy as np
+        realb = [str(x) for x in gs.create_string_pref(list(lst), [bool(t) for t in ties])]
+        cl('writer_tokens_equal_spec_boolean_decisions', realb == toks, 'real writer on a list of bool %r, spec %r' % (realb, toks))
+        realnb = [str(x) for x in gs.create_string_pref(np.array(lst, dtype=np.int64), np.array(ties, dtype=bool))]
+        cl('writer_tokens_equal_spec_boolean_decisions', realnb == toks, 'real writer on a numpy bool array %r, spec %r' % (realnb, toks))
+    except Exception as e:  # noqa
+        cl('writer_tokens_equal_spec_boolean_decisions', False, 'boolean decisions: exception %s: %s' % (type(e).__name__, e))
     # the decisions as the generator itself takes and hands them over: create_ties_indicators is run with the decision
     # vector injected at the RNG boundary (numpy.random.choice returns the chosen elements of the code's OWN choice array,
     # so dtype and container are whatever the code uses); all-tied / none-tied vectors go through tie probability 1 / 0
